@@ -30,8 +30,10 @@ TIERS = {'quick': {'budget_s': 45, 'batch': 20}, 'thorough': {'budget_s': 600, '
 def gen_case(seed, tier):
     rng = substream(seed, 'c20')
     if rng.random() < 0.15:
-        return {'seed': seed, 'sched_seed': seed, 'kind': 'command', 'L': rng.choice([500, 2000, 8000, 20000, 50000]), 'N': rng.choice([1, 1, 2, 3]),
-                'size': rng.choice([500, 3000, 9000, 40000, 120000]), 'big_chunks': rng.random() < 0.5,
+        tiny = substream(seed, 'c20-tiny').random() < 0.15      # limits below 16 x concurrency: the command's block size bottoms out at 1 byte
+        return {'seed': seed, 'sched_seed': seed, 'kind': 'command', 'L': rng.choice([500, 2000, 8000, 20000, 50000]) if not tiny else substream(seed, 'c20-tiny2').choice([4, 7, 20, 40]),
+                'N': rng.choice([1, 1, 2, 3]),
+                'size': rng.choice([500, 3000, 9000, 40000, 120000]) if not tiny else substream(seed, 'c20-tiny3').choice([60, 300]), 'big_chunks': rng.random() < 0.5 and not tiny,
                 'objects': rng.random() < 0.4, 'opts': world.SchedOpts.swarm(rng).as_dict(), 'flavour': rng.choice(['sync', 'async']),
                 # one long-lived process (same Repository object) for snapshot and restore, the restore under another limit
                 'live': substream(seed, 'c20-live').random() < 0.5,
@@ -392,7 +394,8 @@ def run_command(case):
         # (the whole restore has to fit into the simulated-time cap of one process)
         total_bytes = sum(len(v) for v in want.values())
         # ... and into its step cap: the command moves the data in blocks of L // (16 N) bytes, at most ~20 000 of them here
-        L = max(int(L * case.get('L_restore_factor', 1)), 1, total_bytes // 1500 + 1, 16 * case['N'] * (total_bytes // 20_000 + 1))
+        # (below 4 bytes/s even a 1-byte block is more than L/4: outside the property's quantifier)
+        L = max(int(L * case.get('L_restore_factor', 1)), 4, total_bytes // 1500 + 1, 16 * case['N'] * (total_bytes // 20_000) or 1)
         d = max(L // (case['N'] * 16), 1)
         A = 0.5 * L + (case['N'] + 1) * d
         t0 = W.env.now
